@@ -48,6 +48,20 @@ def gen(rng, n):
             d["DGRAM_START"] = rng.choice([0, d["MIGRATE_AT"] - 5000, d["MIGRATE_AT"]])
             d["ECHO_BYTES"] = rng.choice([0, 20000])
             d["LINK_MTU"] = max(d["LINK_MTU"], 1452)
+        if rng.chance(1, 4):
+            # two alternating datagram sizes that together fill a packet to within a few bytes (the
+            # second one must be left for the next packet when it does not fit, length field included)
+            mtu = 1200
+            d["INITIAL_MTU"] = mtu
+            d["MTUD_UPPER"] = 0
+            d["LINK_MTU"] = max(d["LINK_MTU"], mtu)
+            a = rng.choice([300, 500, 600])
+            d["DGRAM_SIZE"] = a
+            d["DGRAM_SIZE2"] = mtu - a - rng.range(24, 40)
+            d["DGRAM_ALT"] = 1
+            d["NDGRAM"] = rng.range(6, 30)
+            d["GSO"] = rng.choice([1, 2, 5])
+            d["DGRAM_INTERVAL"] = 0
         if rng.chance(1, 5):
             # an application close with a reason about as long as a packet (truncated to fit), while ACK
             # ranges are pending: the close datagram must still respect the MTU
